@@ -142,6 +142,40 @@ fn a1(r: i32, c: i32) -> String {
     format!("{}{}", col_name(c), r)
 }
 
+/// types one cell input; `CSE:<w>:<h>:<formula>` is a fixed-range array formula over w columns, h rows
+fn enter(m: &mut Model, r: i32, c: i32, text: &str) {
+    if let Some(rest) = text.strip_prefix("CSE:") {
+        let p: Vec<&str> = rest.splitn(3, ':').collect();
+        if let (Some(w), Some(h), Some(f)) = (p.first().and_then(|x| x.parse().ok()), p.get(1).and_then(|x| x.parse().ok()), p.get(2)) {
+            let _ = m.set_user_array_formula(0, r, c, w, h, f);
+            return;
+        }
+    }
+    let _ = m.set_user_input(0, r, c, text.to_string());
+}
+
+/// fixed-range arrays on a dependency cycle through their own ranges (rows 10-16, away from the rest):
+/// an array that reads its own range, two arrays that read each other's ranges, an array that reads a
+/// scalar cell which reads the array's range
+fn add_cse_cycles(rng: &mut Rng, cells: &mut std::collections::BTreeMap<(i32, i32), String>) {
+    match rng.below(4) {
+        0 => {
+            let (w, h) = (rng.range(1, 3) as i32, rng.range(1, 3) as i32);
+            let shift = rng.range(0, w as i64 - 1) as i32;
+            cells.insert((10, 2), format!("CSE:{w}:{h}:={}:{}+1", a1(10, 2 + shift), a1(10 + h - 1, 2 + shift + w - 1)));
+        }
+        1 => {
+            cells.insert((10, 2), format!("CSE:2:2:={}:{}+1", a1(10, 5), a1(11, 6)));
+            cells.insert((10, 5), format!("CSE:2:2:={}:{}*2", a1(10, 2), a1(11, 3)));
+        }
+        2 => {
+            cells.insert((10, 2), format!("CSE:1:2:={}+1", a1(10, 5)));
+            cells.insert((10, 5), format!("=SUM({}:{})", a1(10, 2), a1(11, 2)));
+        }
+        _ => {}
+    }
+}
+
 fn gen_dyn_set(rng: &mut Rng) -> Vec<((i32, i32), String)> {
     let mut cells: std::collections::BTreeMap<(i32, i32), String> = Default::default();
     for k in 1..=4 {
@@ -201,6 +235,7 @@ fn gen_dyn_set(rng: &mut Rng) -> Vec<((i32, i32), String)> {
         };
         cells.insert(at, text);
     }
+    add_cse_cycles(rng, &mut cells);
     cells.into_iter().collect()
 }
 
@@ -267,7 +302,7 @@ fn eval_dyn(req: &str) -> ImplOut {
         let half = idx.len() / 2;
         for (n, &i) in idx.iter().enumerate() {
             let ((r, c), text) = &cells[i];
-            let _ = m.set_user_input(0, *r, *c, text.clone());
+            enter(&mut m, *r, *c, text);
             if each {
                 m.evaluate();
             }
@@ -351,7 +386,7 @@ fn dec_cells(x: &str) -> Cells {
 fn run_engine(cells: &Cells) -> (Model<'static>, usize, String, String, Vec<(u32, i32, i32)>) {
     let mut m = Model::new_empty("c07", "en", "UTC", "en").unwrap();
     for ((r, c), t) in cells {
-        let _ = m.set_user_input(0, *r, *c, t.clone());
+        enter(&mut m, *r, *c, t);
     }
     m.evaluate();
     let (passes, fin) = ironcalc_base::verif::phase1::trace();
